@@ -140,6 +140,16 @@ def _sanitize(p: bytes, sep: bytes, filler: bytes) -> bytes:
             raise HarnessError(f"cannot sanitize payload {p!r} for separator {sep!r}")
 
 
+def _more_frames(world: World, have: int, max_frames: int) -> bool:
+    """1..max_frames frames; drawn as a stop/continue flag per frame (0 = stop) so that the minimiser can delete the
+    choices of one whole frame without shifting the meaning of the others"""
+    if have == 0:
+        return True
+    if have >= max_frames:
+        return False
+    return world.choose("more_frames", 4) > 0
+
+
 def _sep_units(alpha: bytes, sep: bytes) -> list[bytes]:
     units = [bytes([b]) for b in alpha]
     for k in range(1, len(sep)):
@@ -167,13 +177,12 @@ def _gen_sep_frames(world: World, rng, fam: _SepFamily, max_frames: int = 6) -> 
     sep, limit = fam.sep, fam.limit
     seplen = len(sep)
     safe_max = safe_payload_max(limit, seplen)
-    nframes = 1 + world.choose("nframes", max_frames)
     # half of the runs exercise clause 1 (every frame safely within the limit), the other half clause 2
     kinds = ["valid", "valid", "undecodable", "empty"]
     if world.choose("with_unsafe_frames", 2):
         kinds = ["valid", "valid", "undecodable", "empty", "band", "oversized", "band"]
     frames: list[tuple[str, bytes]] = []
-    for _ in range(nframes):
+    while _more_frames(world, len(frames), max_frames):
         kind = world.pick("kind", kinds)
         p: bytes | None
         if kind in ("valid", "undecodable"):
@@ -530,10 +539,9 @@ def _gen_jsonraw(world: World) -> Case:
     limit = 8 + world.choose("limit", 89)
     rng = world.sub_rng("filler")
     safe = limit - 2  # leading whitespace + document (+ terminator of a plain value) <= limit - 2
-    nframes = 1 + world.choose("nframes", 8)
     frames: list[tuple[str, bytes]] = []
     parts: list[bytes] = []
-    for _ in range(nframes):
+    while _more_frames(world, len(frames), 8):
         kind = world.pick("kind", ["valid", "valid", "undecodable", "plain", "valid", "plain-bad"])
         lead = b"".join(rng.choice(_JSON_WS) for _ in range(world.choose("lead_ws", 3)))
         room = safe - len(lead)
@@ -634,9 +642,8 @@ def _gen_fixed(world: World) -> Case:
         size = make().packet_size
         desc = f"NamedTupleStructSerializer(Rec, name={width}s n=H flag=b, endianness={endian!r}, utf-8)"
         bad_span = (0, width)
-    nframes = 1 + world.choose("nframes", 8)
     frames: list[tuple[str, bytes]] = []
-    for _ in range(nframes):
+    while _more_frames(world, len(frames), 8):
         kind = world.pick("kind", ["valid", "valid", "undecodable"])
         block = bytearray(rng.choice(LOW) for _ in range(size))
         if variant == "namedtuple" and rng.randrange(3) == 0:
@@ -646,9 +653,9 @@ def _gen_fixed(world: World) -> Case:
             block[rng.randrange(bad_span[0], bad_span[1])] = 0xE9
         frames.append((kind, bytes(block)))
     stream = b"".join(p for _, p in frames)
-    structural = [k * size for k in range(1, nframes)]
+    structural = [k * size for k in range(1, len(frames))]
     cfg = Framing("fixed", make, size=size)
-    return Case("fixed", desc, cfg, make, stream, frames, [False] * nframes, lambda v: None, structural)
+    return Case("fixed", desc, cfg, make, stream, frames, [False] * len(frames), lambda v: None, structural)
 
 
 # =================================================================================================== the harness
